@@ -1,19 +1,1256 @@
-//! Exhaustive enumerators for the finite sub-domains (filled in per property).
+//! Exhaustive enumerators for the finite sub-domains.  Each is split into shards that the
+//! worker processes pull from a shared counter; every evaluation goes through the same
+//! oracles as the generated search.
 
-use crate::runner::{RunFn, Sub};
+use std::collections::HashSet;
+use std::sync::Arc;
 
-pub fn c02_subs(_run: RunFn) -> Vec<Sub> { vec![] }
-pub fn c03_subs(_run: RunFn) -> Vec<Sub> { vec![] }
-pub fn c04_subs() -> Vec<Sub> { vec![] }
-pub fn c05_subs() -> Vec<Sub> { vec![] }
-pub fn c06_subs() -> Vec<Sub> { vec![] }
-pub fn c07_subs() -> Vec<Sub> { vec![] }
-pub fn c08_subs() -> Vec<Sub> { vec![] }
-pub fn c11_subs(_run: RunFn) -> Vec<Sub> { vec![] }
-pub fn c12_subs() -> Vec<Sub> { vec![] }
-pub fn c13_subs() -> Vec<Sub> { vec![] }
-pub fn c14_subs() -> Vec<Sub> { vec![] }
-pub fn c16_subs() -> Vec<Sub> { vec![] }
-pub fn c18_subs() -> Vec<Sub> { vec![] }
-pub fn c19_subs() -> Vec<Sub> { vec![] }
-pub fn c20_subs() -> Vec<Sub> { vec![] }
+use crate::engine::{hash_of, reach, run_forked, run_stepper, Cfg};
+use crate::ops::{Case, Op, N};
+use crate::props::{cfg_for, stepper_run};
+use crate::recog::{Recog, St};
+use crate::runner::{Acc, RunFn, ShardFn, Sub, SubKind, Tier};
+use crate::snap::Snap;
+
+fn exh_sub(name: &'static str, shards: (usize, usize), replay: RunFn, f: impl Fn(usize, Tier, &mut Acc) + Send + Sync + 'static) -> Sub {
+    let shard: ShardFn = Arc::new(f);
+    Sub { name, kind: SubKind::Exh { shards, shard }, replay }
+}
+
+/// parameters {absent, 0, 1, .., size+2, 9999}
+fn params(size: u32) -> Vec<N> {
+    let mut v: Vec<N> = vec![None];
+    for k in 0..=size + 2 {
+        v.push(Some(k));
+    }
+    v.push(Some(9999));
+    v
+}
+
+/// all valid regions (1-based DECSTBM parameters), preceded by "no region"
+fn regions(lines: u32) -> Vec<Option<(u32, u32)>> {
+    let mut v = vec![None];
+    for t in 1..=lines {
+        for b in t + 1..=lines {
+            v.push(Some((t, b)));
+        }
+    }
+    v
+}
+
+/// Explore candidates from one reached state: the state is built once, forked per candidate.
+struct Explorer<'a> {
+    cfg: Cfg,
+    acc: &'a mut Acc,
+    seen: HashSet<u64>,
+}
+
+impl<'a> Explorer<'a> {
+    fn new(cfg: Cfg, acc: &'a mut Acc) -> Self {
+        Explorer { cfg, acc, seen: HashSet::new() }
+    }
+
+    /// returns false when the state was already explored (or unreachable)
+    fn state(&mut self, cols: u32, lines: u32, setup: &[Op], cands: &mut dyn Iterator<Item = Vec<Op>>) -> bool {
+        if self.acc.failed() {
+            return false;
+        }
+        let base = match reach(cols, lines, setup) {
+            Some(b) => b,
+            None => {
+                self.acc.stats.exclude("setup-panicked(C01)");
+                return false;
+            }
+        };
+        let h = hash_of(&Snap::of(&base));
+        if !self.seen.insert(h) {
+            return false;
+        }
+        self.acc.stats.class("explored-state");
+        for cand in cands {
+            let mut ops = setup.to_vec();
+            let from = ops.len();
+            ops.extend(cand);
+            let case = Case { cols, lines, ops };
+            let res = run_forked(&base, &case, from, &self.cfg);
+            self.acc.stats.cases += 0;
+            if self.acc.absorb(&case, res).is_some() {
+                return true;
+            }
+        }
+        true
+    }
+}
+
+/// the same operation through the API and as an escape sequence through the char parser
+fn both_paths(op: Op) -> Vec<Vec<Op>> {
+    let mut v = Vec::new();
+    if let Some(seq) = op.to_sequence(false) {
+        v.push(vec![Op::FeedStr(seq)]);
+    }
+    v.insert(0, vec![op]);
+    v
+}
+
+// ------------------------------------------------------------------------------------------
+// C05
+
+const C05_GEOMS: &[(u32, u32)] = &[(1, 1), (1, 3), (3, 1), (2, 2), (4, 3), (5, 4), (8, 5)];
+
+fn c05_shards() -> Vec<(u32, u32, Option<(u32, u32)>)> {
+    let mut v = Vec::new();
+    for (c, l) in C05_GEOMS {
+        for r in regions(*l) {
+            v.push((*c, *l, r));
+        }
+    }
+    v
+}
+
+fn movement_cands(cols: u32, lines: u32) -> Vec<Vec<Op>> {
+    let mut v = Vec::new();
+    for n in params(lines) {
+        for op in [Op::Cuu(n), Op::Cud(n), Op::Cnl(n), Op::Cpl(n), Op::Vpa(n)] {
+            v.extend(both_paths(op));
+        }
+    }
+    for n in params(cols) {
+        for op in [Op::Cuf(n), Op::Cub(n), Op::Cha(n)] {
+            v.extend(both_paths(op));
+        }
+    }
+    for a in params(lines) {
+        for b in params(cols) {
+            v.extend(both_paths(Op::Cup(a, b)));
+        }
+    }
+    v.extend(both_paths(Op::Bs));
+    v.extend(both_paths(Op::Cr));
+    // HPR / VPR / HVP finals reach the same listener methods through the parser
+    for n in params(lines) {
+        let p = n.map_or(String::new(), |x| x.to_string());
+        v.push(vec![Op::FeedStr(format!("\x1b[{}e", p))]);
+        v.push(vec![Op::FeedStr(format!("\x1b[{};{}f", p, p))]);
+    }
+    for n in params(cols) {
+        let p = n.map_or(String::new(), |x| x.to_string());
+        v.push(vec![Op::FeedStr(format!("\x1b[{}a", p))]);
+        v.push(vec![Op::FeedStr(format!("\x1b[2;{}f", p))]);
+    }
+    v
+}
+
+pub fn c05_subs() -> Vec<Sub> {
+    let n = c05_shards().len();
+    vec![exh_sub("exh-movement", (n, n), stepper_run(cfg_for("C05")), |i, _tier, acc| {
+        let (cols, lines, region) = c05_shards()[i];
+        let cands = movement_cands(cols, lines);
+        let mut ex = Explorer::new(cfg_for("C05"), acc);
+        for decom in [false, true] {
+            for y in 0..lines {
+                for x in 0..=cols {
+                    let mut setup = vec![Op::Fill { rows: 0, sparse: true }];
+                    let mut top = 0;
+                    if let Some((t, b)) = region {
+                        setup.push(Op::Stbm(Some(t), Some(b)));
+                        top = t - 1;
+                    }
+                    let mut row = y + 1;
+                    if decom {
+                        setup.push(Op::Sm(vec![6], true));
+                        if let Some((t, b)) = region {
+                            if y + 1 < t || y + 1 > b {
+                                continue; // not reachable with origin mode on
+                            }
+                            row = y - top + 1;
+                        }
+                    }
+                    setup.push(Op::Cup(Some(row), Some(x.min(cols - 1) + 1)));
+                    if x == cols {
+                        setup.push(Op::Draw("w".into()));
+                    }
+                    ex.state(cols, lines, &setup, &mut cands.clone().into_iter());
+                }
+            }
+        }
+    })]
+}
+
+// ------------------------------------------------------------------------------------------
+// C06
+
+const C06_GEOMS: &[(u32, u32)] = &[(2, 2), (3, 3), (1, 4), (4, 3), (3, 5), (5, 5), (2, 1)];
+const C06_FILLS: &[Option<(u32, bool)>] = &[Some((0, false)), Some((0b0101_0101, false)), Some((0b0110_0110, true)), None];
+
+pub fn c06_subs() -> Vec<Sub> {
+    let n = C06_GEOMS.len() * C06_FILLS.len();
+    let mut cfg = cfg_for("C06");
+    cfg.adopt = vec![];
+    vec![exh_sub("exh-scroll", (n, n), stepper_run(cfg_for("C06")), move |i, _tier, acc| {
+        let (cols, lines) = C06_GEOMS[i / C06_FILLS.len()];
+        let fill = C06_FILLS[i % C06_FILLS.len()];
+        let mut cands: Vec<Vec<Op>> = Vec::new();
+        for op in [Op::Ind, Op::Lf, Op::Ri] {
+            cands.extend(both_paths(op));
+        }
+        cands.push(vec![Op::FeedStr("\x1bE".into())]);
+        cands.push(vec![Op::FeedStr("\x0b".into())]);
+        cands.push(vec![Op::FeedStr("\x0c".into())]);
+        for p in params(lines) {
+            cands.extend(both_paths(Op::Il(p)));
+            cands.extend(both_paths(Op::Dl(p)));
+        }
+        for a in params(lines) {
+            for b in params(lines) {
+                cands.extend(both_paths(Op::Stbm(a, b)));
+            }
+        }
+        // autowrap-induced index at the bottom margin
+        cands.push(vec![Op::Cha(Some(cols)), Op::Draw("x".into()), Op::Draw("y".into())]);
+        let mut ex = Explorer::new(cfg_for("C06"), acc);
+        for region in regions(lines) {
+            for modes in 0..4u32 {
+                for y in 0..lines {
+                    for x in [0, cols - 1] {
+                        let mut setup = Vec::new();
+                        if let Some((rows, sparse)) = fill {
+                            setup.push(Op::Fill { rows, sparse });
+                        }
+                        if let Some((t, b)) = region {
+                            setup.push(Op::Stbm(Some(t), Some(b)));
+                        }
+                        if modes & 1 == 1 {
+                            setup.push(Op::Sm(vec![20], false)); // LNM
+                        }
+                        if modes & 2 == 2 {
+                            setup.push(Op::Sm(vec![6], true)); // DECOM
+                        }
+                        // reach the row also when origin mode confines CUP: move relatively
+                        setup.push(Op::Cup(Some(1), Some(x + 1)));
+                        setup.push(Op::Rm(vec![6], true));
+                        setup.push(Op::Cup(Some(y + 1), Some(x + 1)));
+                        if modes & 2 == 2 {
+                            // re-enable origin mode without moving: DECSC / SM / DECRC keeps the position
+                            // only if it is inside the region, which is what reachability means here
+                            setup.push(Op::Sc);
+                            setup.push(Op::Sm(vec![6], true));
+                            setup.push(Op::Rc);
+                        }
+                        ex.state(cols, lines, &setup, &mut cands.clone().into_iter());
+                    }
+                }
+            }
+        }
+    })]
+}
+
+// ------------------------------------------------------------------------------------------
+// C07
+
+const C07_GEOMS: &[(u32, u32)] = &[(1, 1), (3, 1), (1, 3), (2, 2), (4, 3), (5, 4)];
+
+pub fn c07_subs() -> Vec<Sub> {
+    let n = C07_GEOMS.len() * 2;
+    vec![exh_sub("exh-erase", (n, n), stepper_run(cfg_for("C07")), |i, _tier, acc| {
+        let (cols, lines) = C07_GEOMS[i / 2];
+        let sparse = i % 2 == 1;
+        let sels: [N; 8] = [None, Some(0), Some(1), Some(2), Some(3), Some(4), Some(5), Some(9999)];
+        let mut cands: Vec<Vec<Op>> = Vec::new();
+        for s in sels {
+            cands.extend(both_paths(Op::Ed(s, None)));
+            cands.extend(both_paths(Op::El(s, None)));
+        }
+        cands.push(vec![Op::Ed(Some(0), Some(true))]);
+        cands.push(vec![Op::El(Some(1), Some(true))]);
+        cands.push(vec![Op::FeedStr("\x1b[?2J".into())]);
+        cands.push(vec![Op::FeedStr("\x1b[1;5K".into())]);
+        for p in params(cols) {
+            cands.extend(both_paths(Op::Ech(p)));
+        }
+        let mut ex = Explorer::new(cfg_for("C07"), acc);
+        let regs: Vec<Option<(u32, u32)>> = if lines >= 3 { vec![None, Some((2, 3))] } else if lines == 2 { vec![None, Some((1, 2))] } else { vec![None] };
+        for region in regs {
+            for decom in [false, true] {
+                for rend in [vec![], vec![31u32, 44, 1], vec![7]] {
+                    for y in 0..lines {
+                        for x in 0..=cols {
+                            let mut setup = vec![Op::Fill { rows: if sparse { 0b1011 } else { 0 }, sparse }];
+                            if let Some((t, b)) = region {
+                                setup.push(Op::Stbm(Some(t), Some(b)));
+                            }
+                            setup.push(Op::Cup(Some(y + 1), Some(x.min(cols - 1) + 1)));
+                            if x == cols {
+                                setup.push(Op::Draw("w".into()));
+                            }
+                            if decom {
+                                setup.push(Op::Sc);
+                                setup.push(Op::Sm(vec![6], true));
+                                setup.push(Op::Rc);
+                            }
+                            if !rend.is_empty() {
+                                setup.push(Op::Sgr(rend.clone()));
+                            }
+                            ex.state(cols, lines, &setup, &mut cands.clone().into_iter());
+                        }
+                    }
+                }
+            }
+        }
+    })]
+}
+
+// ------------------------------------------------------------------------------------------
+// C08
+
+fn sgr_case(s0: &[u32], list: Vec<u32>, via_parser: bool) -> Case {
+    let op = Op::Sgr(list);
+    let mid = if via_parser { Op::FeedStr(op.to_sequence(false).unwrap()) } else { op };
+    Case {
+        cols: 3,
+        lines: 2,
+        ops: vec![Op::Draw("k".into()), Op::Sgr(s0.to_vec()), mid, Op::Draw("x".into())],
+    }
+}
+
+const SGR_DOC: &[u32] = &[
+    0, 1, 3, 4, 5, 7, 9, 22, 23, 24, 25, 27, 29, 30, 31, 32, 33, 34, 35, 36, 37, 39, 40, 41, 42,
+    43, 44, 45, 46, 47, 49, 90, 91, 92, 93, 94, 95, 96, 97, 100, 101, 102, 103, 104, 105, 106, 107,
+];
+
+pub fn c08_subs() -> Vec<Sub> {
+    let run = stepper_run(cfg_for("C08"));
+    let r1 = run.clone();
+    let r2 = run.clone();
+    let states: [&[u32]; 6] = [&[], &[1, 3, 4, 5, 7, 9], &[31, 42], &[38, 5, 200, 48, 2, 1, 2, 3], &[97, 100, 4], &[7, 33]];
+    vec![
+        exh_sub("exh-single-codes", (20, 20), run.clone(), move |i, _t, acc| {
+            // every code 0..=9999 from six attribute states, API and parser
+            for code in (i as u32 * 500)..((i as u32 + 1) * 500) {
+                for s0 in states {
+                    for via in [false, true] {
+                        if via && code > 300 && code % 97 != 0 {
+                            continue;
+                        }
+                        let c = sgr_case(s0, vec![code], via);
+                        let res = r1(&c);
+                        if acc.absorb(&c, res).is_some() {
+                            return;
+                        }
+                    }
+                }
+            }
+        }),
+        exh_sub("exh-pairs-and-extended", (8, 8), run, move |i, tier, acc| {
+            let mut lists: Vec<Vec<u32>> = Vec::new();
+            match i {
+                0 | 1 => {
+                    // all pairs of documented codes (split in two halves)
+                    for (k, a) in SGR_DOC.iter().enumerate() {
+                        if k % 2 != i {
+                            continue;
+                        }
+                        for b in SGR_DOC {
+                            lists.push(vec![*a, *b]);
+                        }
+                    }
+                }
+                2 | 3 => {
+                    let base = if i == 2 { 38 } else { 48 };
+                    for n in 0..=300u32 {
+                        lists.push(vec![base, 5, n]);
+                        lists.push(vec![base, 5, n, 1]);
+                        lists.push(vec![4, base, 5, n, 31]);
+                    }
+                    for n in [301u32, 999, 9999] {
+                        lists.push(vec![base, 5, n, 7]);
+                    }
+                    lists.push(vec![base]);
+                    lists.push(vec![base, 5]);
+                    lists.push(vec![base, 7, 1]);
+                    lists.push(vec![base, 0, 4]);
+                    lists.push(vec![base, 9999, 9]);
+                }
+                4 | 5 => {
+                    let base = if i == 4 { 38 } else { 48 };
+                    let comps = [0u32, 1, 127, 255, 256, 300, 9999];
+                    for r in comps {
+                        for g in comps {
+                            for b in comps {
+                                lists.push(vec![base, 2, r, g, b]);
+                                lists.push(vec![base, 2, r, g, b, 1]);
+                            }
+                            // truncated tails whose leftovers are themselves codes
+                            lists.push(vec![base, 2, r, g]);
+                        }
+                        lists.push(vec![base, 2, r]);
+                    }
+                    for tail in [vec![1u32, 4], vec![9, 44], vec![7], vec![31, 1], vec![4]] {
+                        let mut l = vec![base, 2];
+                        l.extend(tail);
+                        lists.push(l);
+                    }
+                    lists.push(vec![base, 2]);
+                }
+                _ => {
+                    // triples over the documented codes (thorough), a sample in quick
+                    let step = if tier == Tier::Thorough { 1 } else { 5 };
+                    for (k, a) in SGR_DOC.iter().enumerate() {
+                        if k % 2 != i - 6 {
+                            continue;
+                        }
+                        for b in SGR_DOC.iter().step_by(step) {
+                            for c in SGR_DOC.iter().step_by(step) {
+                                lists.push(vec![*a, *b, *c]);
+                            }
+                        }
+                    }
+                }
+            }
+            for l in lists {
+                for s0 in [&[][..], &[1, 3, 4, 5, 7, 9, 35, 46][..]] {
+                    for via in [false, true] {
+                        let c = sgr_case(s0, l.clone(), via);
+                        let res = r2(&c);
+                        if acc.absorb(&c, res).is_some() {
+                            return;
+                        }
+                    }
+                }
+            }
+        }),
+    ]
+}
+
+// ------------------------------------------------------------------------------------------
+// C12
+
+fn c12_states() -> Vec<(u32, u32, Vec<Op>)> {
+    vec![
+        (5, 3, vec![]),
+        (5, 3, vec![Op::Fill { rows: 0, sparse: false }, Op::Stbm(Some(2), Some(3)), Op::Sm(vec![6], true), Op::Cup(Some(2), Some(3)), Op::Sgr(vec![1, 31])]),
+        (4, 3, vec![Op::Fill { rows: 0b101, sparse: true }, Op::Sm(vec![5], true), Op::Sm(vec![4], false), Op::Cup(Some(2), Some(2))]),
+        (6, 2, vec![Op::Fill { rows: 0, sparse: false }, Op::Sm(vec![3], true), Op::Draw("abc".into())]),
+        (1, 1, vec![Op::Draw("q".into())]),
+        (4, 2, vec![Op::Rm(vec![25], true), Op::Sm(vec![20], false), Op::Rm(vec![7], true), Op::Draw("abcd".into())]),
+        (5, 2, vec![Op::Sm(vec![3], true), Op::Resize(Some(3), Some(4)), Op::Fill { rows: 0, sparse: true }, Op::Stbm(Some(1), Some(2))]),
+        (7, 3, vec![Op::Fill { rows: 0, sparse: false }, Op::Sc, Op::Sm(vec![5, 6, 7], true), Op::Cup(Some(3), Some(7)), Op::Draw("z".into())]),
+    ]
+}
+
+pub fn c12_subs() -> Vec<Sub> {
+    let n = c12_states().len() * 4;
+    vec![exh_sub("exh-all-mode-numbers", (n, n), stepper_run(cfg_for("C12")), |i, _t, acc| {
+        let (cols, lines, setup) = c12_states()[i / 4].clone();
+        let private = (i % 4) & 1 == 1;
+        let set = (i % 4) & 2 == 2;
+        let mut ex = Explorer::new(cfg_for("C12"), acc);
+        let mut cands = (0..=9999u32).flat_map(move |m| {
+            let op = if set { Op::Sm(vec![m], private) } else { Op::Rm(vec![m], private) };
+            let mut v = vec![vec![op.clone()]];
+            if m <= 260 || m % 32 == 0 || m == 9999 {
+                v.push(vec![Op::FeedStr(op.to_sequence(false).unwrap())]);
+                // set/set and reset/reset, and the opposite directly afterwards
+                v.push(vec![op.clone(), op.clone()]);
+                let opp = if set { Op::Rm(vec![m], private) } else { Op::Sm(vec![m], private) };
+                v.push(vec![op.clone(), opp]);
+            }
+            v.into_iter()
+        });
+        ex.state(cols, lines, &setup, &mut cands);
+    })]
+}
+
+// ------------------------------------------------------------------------------------------
+// C13
+
+fn c13_alphabet(cols: u32) -> Vec<Vec<Op>> {
+    let mut a: Vec<Vec<Op>> = Vec::new();
+    for n in [Some(1), Some(2), Some(cols - 1), Some(cols + 1)] {
+        a.push(vec![Op::Ich(n)]);
+        a.push(vec![Op::Dch(n)]);
+    }
+    a.push(vec![Op::Sm(vec![4], false), Op::Draw("i".into()), Op::Rm(vec![4], false)]);
+    a.push(vec![Op::Sm(vec![4], false), Op::Draw("\u{4e2d}".into()), Op::Rm(vec![4], false)]);
+    a.push(vec![Op::El(Some(0), None)]);
+    a.push(vec![Op::El(Some(1), None)]);
+    a.push(vec![Op::El(Some(2), None)]);
+    for x in 1..=cols {
+        a.push(vec![Op::Cha(Some(x))]);
+    }
+    a.push(vec![Op::Cha(Some(cols)), Op::Draw("p".into())]); // pending wrap
+    a
+}
+
+pub fn c13_subs() -> Vec<Sub> {
+    let cols = 4;
+    let alpha = c13_alphabet(cols).len();
+    let n = alpha * 3;
+    let run = stepper_run(cfg_for("C13"));
+    let r = run.clone();
+    vec![
+        exh_sub("exh-edit-sequences", (n, n), run.clone(), move |i, tier, acc| {
+            let a = c13_alphabet(cols);
+            let first = i % alpha;
+            let variant = i / alpha;
+            let setup: Vec<Op> = match variant {
+                0 => vec![Op::Fill { rows: 0, sparse: false }],
+                1 => vec![],
+                _ => vec![Op::Fill { rows: 0b10, sparse: false }, Op::Cup(Some(1), Some(2)), Op::Sgr(vec![32]), Op::Draw("m".into()), Op::Sgr(vec![0]), Op::Cup(None, None)],
+            };
+            let depth = if tier == Tier::Thorough { 4 } else { 4 };
+            // all sequences of length <= depth starting with `first`
+            let mut stack: Vec<Vec<usize>> = vec![vec![first]];
+            while let Some(seq) = stack.pop() {
+                if seq.len() < depth {
+                    for k in 0..a.len() {
+                        let mut s = seq.clone();
+                        s.push(k);
+                        stack.push(s);
+                    }
+                    continue; // prefixes are covered by the step-by-step check of longer sequences
+                }
+                let mut ops = setup.clone();
+                for k in &seq {
+                    ops.extend(a[*k].clone());
+                }
+                let c = Case { cols, lines: 2, ops };
+                let res = r(&c);
+                if acc.absorb(&c, res).is_some() {
+                    return;
+                }
+            }
+        }),
+        exh_sub("exh-counts", (6, 6), run, |i, _t, acc| {
+            // rows <= 6 columns, cursor at every column incl. pending-wrap, every count
+            let cols = i as u32 + 1;
+            let mut ex = Explorer::new(cfg_for("C13"), acc);
+            let mut cands: Vec<Vec<Op>> = Vec::new();
+            for p in params(cols) {
+                cands.extend(both_paths(Op::Ich(p)));
+                cands.extend(both_paths(Op::Dch(p)));
+            }
+            for fill in [Some(false), Some(true), None] {
+                for irm in [false, true] {
+                    for x in 0..=cols {
+                        let mut setup = Vec::new();
+                        if let Some(sp) = fill {
+                            setup.push(Op::Fill { rows: 0, sparse: sp });
+                        }
+                        if irm {
+                            setup.push(Op::Sm(vec![4], false));
+                        }
+                        setup.push(Op::Sgr(vec![35, 1]));
+                        setup.push(Op::Cup(Some(2), Some(x.min(cols - 1) + 1)));
+                        if x == cols {
+                            setup.push(Op::Rm(vec![4], false));
+                            setup.push(Op::Draw("w".into()));
+                            if irm {
+                                setup.push(Op::Sm(vec![4], false));
+                            }
+                        }
+                        ex.state(cols, 3, &setup, &mut cands.clone().into_iter());
+                    }
+                }
+            }
+        }),
+    ]
+}
+
+// ------------------------------------------------------------------------------------------
+// C14
+
+pub fn c14_subs() -> Vec<Sub> {
+    let run = stepper_run(cfg_for("C14"));
+    let r = run.clone();
+    let alphabet = || -> Vec<Op> {
+        vec![
+            Op::Cup(Some(3), Some(4)),
+            Op::Cup(Some(1), Some(1)),
+            Op::Cha(Some(5)),
+            Op::Draw("ab".into()),
+            Op::Sgr(vec![31, 1]),
+            Op::Sgr(vec![7, 44]),
+            Op::So,
+            Op::Si,
+            Op::DefCharset("0".into(), "(".into()),
+            Op::DefCharset("U".into(), ")".into()),
+            Op::Sm(vec![6], true),
+            Op::Rm(vec![6], true),
+            Op::Rm(vec![7], true),
+            Op::Sm(vec![7], true),
+            Op::Rm(vec![25], true),
+            Op::Stbm(Some(2), Some(3)),
+            Op::Stbm(None, None),
+            Op::Resize(Some(2), Some(3)),
+            Op::Resize(Some(5), Some(7)),
+            Op::Ris,
+        ]
+    };
+    let n = alphabet().len();
+    vec![exh_sub("exh-save-restore", (n, n), run, move |i, _t, acc| {
+        let a = alphabet();
+        for k in 0..=3usize {
+            for b in 0..a.len() {
+                for c in 0..a.len() {
+                    for m in 1..=4usize {
+                        if k == 0 && m > 2 {
+                            continue;
+                        }
+                        let mut ops = vec![Op::Fill { rows: 0, sparse: true }, a[i].clone()];
+                        for j in 0..k {
+                            ops.push(Op::Sc);
+                            if j == 0 {
+                                ops.push(a[b].clone());
+                            }
+                        }
+                        ops.push(a[c].clone());
+                        for _ in 0..m {
+                            ops.push(Op::Rc);
+                        }
+                        let case = Case { cols: 5, lines: 4, ops };
+                        let res = r(&case);
+                        if acc.absorb(&case, res).is_some() {
+                            return;
+                        }
+                    }
+                }
+            }
+        }
+    })]
+}
+
+// ------------------------------------------------------------------------------------------
+// C16
+
+const C16_GEOMS: &[(u32, u32)] = &[(3, 3), (4, 3), (5, 4), (2, 5), (1, 1)];
+
+pub fn c16_subs() -> Vec<Sub> {
+    let n = C16_GEOMS.len() * 6;
+    vec![exh_sub("exh-resize", (n, n), stepper_run(cfg_for("C16")), |i, tier, acc| {
+        let (cols, lines) = C16_GEOMS[i / 6];
+        let variant = i % 6;
+        let mut ex = Explorer::new(cfg_for("C16"), acc);
+        let targets_l: Vec<N> = std::iter::once(None).chain((1..=lines + 2).map(Some)).collect();
+        let targets_c: Vec<N> = std::iter::once(None).chain((1..=cols + 2).map(Some)).collect();
+        let mut cands: Vec<Vec<Op>> = Vec::new();
+        for l in &targets_l {
+            for c in &targets_c {
+                // single resize, then grow again (content discarded by the shrink must not reappear)
+                cands.push(vec![Op::Resize(*l, *c), Op::Resize(Some(lines + 1), Some(cols + 1))]);
+                if tier == Tier::Thorough || (l.unwrap_or(lines) + c.unwrap_or(cols)) % 2 == 0 {
+                    cands.push(vec![Op::Resize(*l, *c), Op::Draw("n".into()), Op::Resize(Some(lines), Some(cols)), Op::Resize(*l, *c)]);
+                }
+            }
+        }
+        let xs: Vec<u32> = vec![0, cols - 1, cols];
+        let ys: Vec<u32> = vec![0, lines / 2, lines - 1];
+        for x in &xs {
+            for y in &ys {
+                let mut setup: Vec<Op> = Vec::new();
+                match variant {
+                    0 => setup.push(Op::Fill { rows: 0, sparse: false }),
+                    1 => setup.push(Op::Fill { rows: 0b1010_1010, sparse: true }),
+                    2 => {
+                        setup.push(Op::Fill { rows: 0, sparse: false });
+                        if lines >= 2 {
+                            setup.push(Op::Stbm(Some(lines.min(2)), Some(lines)));
+                        }
+                    }
+                    3 => {
+                        setup.push(Op::Fill { rows: 0, sparse: false });
+                        if lines >= 3 {
+                            setup.push(Op::Stbm(Some(2), Some(3)));
+                        }
+                        setup.push(Op::Sm(vec![6], true));
+                    }
+                    4 => {
+                        // wide characters on every row, so that a cut lands on one
+                        setup.push(Op::Fill { rows: 0, sparse: false });
+                        for r in 0..lines {
+                            setup.push(Op::Cup(Some(r + 1), Some(((r + cols - 1) % cols).max(1))));
+                            setup.push(Op::Draw("\u{4e2d}".into()));
+                        }
+                    }
+                    _ => {
+                        // leftovers of edits: ICH at the edge, RI at the top, EL at pending wrap
+                        setup.push(Op::Fill { rows: 0, sparse: false });
+                        setup.push(Op::Cup(Some(1), Some(1)));
+                        setup.push(Op::Ich(Some(1)));
+                        setup.push(Op::Ri);
+                        setup.push(Op::Cup(Some(lines), Some(cols)));
+                        setup.push(Op::Draw("e".into()));
+                        setup.push(Op::El(Some(1), None));
+                        setup.push(Op::Sm(vec![5], true));
+                    }
+                }
+                setup.push(Op::Sc);
+                setup.push(Op::Rm(vec![6], true));
+                setup.push(Op::Cup(Some(*y + 1), Some((*x).min(cols - 1) + 1)));
+                if *x == cols {
+                    setup.push(Op::Draw("w".into()));
+                }
+                if variant == 3 {
+                    setup.push(Op::Sm(vec![6], true));
+                }
+                ex.state(cols, lines, &setup, &mut cands.clone().into_iter());
+            }
+        }
+    })]
+}
+
+// ------------------------------------------------------------------------------------------
+// C18
+
+pub fn c18_subs() -> Vec<Sub> {
+    let run = stepper_run(cfg_for("C18"));
+    vec![
+        exh_sub("exh-default-stops", (14, 14), run.clone(), |i, _t, acc| {
+            // widths 1..=140: fresh screen and after reset, HT from every column
+            let mut ex = Explorer::new(cfg_for("C18"), acc);
+            for w in (i as u32 * 10 + 1)..=(i as u32 * 10 + 10) {
+                for reset in [false, true] {
+                    for x in 0..=w {
+                        let mut setup = Vec::new();
+                        if reset {
+                            setup.push(Op::Hts);
+                            setup.push(Op::Tbc(Some(3)));
+                            setup.push(Op::Ris);
+                        }
+                        setup.push(Op::Cha(Some(x.min(w - 1) + 1)));
+                        if x == w {
+                            setup.push(Op::Draw("w".into()));
+                        }
+                        let cands: Vec<Vec<Op>> = vec![vec![Op::Tab], vec![Op::FeedStr("\t".into())], vec![Op::Tab, Op::Tab]];
+                        ex.state(w, 2, &setup, &mut cands.into_iter());
+                    }
+                }
+            }
+        }),
+        exh_sub("exh-stop-subsets", (8 * 16, 12 * 16), run.clone(), |i, _t, acc| {
+            // every stop subset of small widths x every cursor column x every tab operation
+            let w = (i / 16) as u32 + 1;
+            let part = (i % 16) as u32;
+            let mut ex = Explorer::new(cfg_for("C18"), acc);
+            let mut cands: Vec<Vec<Op>> = Vec::new();
+            cands.extend(both_paths(Op::Tab));
+            cands.extend(both_paths(Op::Hts));
+            for s in [None, Some(0), Some(3), Some(1), Some(2), Some(5), Some(9999)] {
+                cands.extend(both_paths(Op::Tbc(s)));
+            }
+            for mask in 0..(1u32 << w) {
+                if mask % 16 != part {
+                    continue;
+                }
+                for x in 0..=w {
+                    let mut setup = vec![Op::Tbc(Some(3))];
+                    for s in 0..w {
+                        if mask >> s & 1 == 1 {
+                            setup.push(Op::Cha(Some(s + 1)));
+                            setup.push(Op::Hts);
+                        }
+                    }
+                    setup.push(Op::Cha(Some(x.min(w - 1) + 1)));
+                    if x == w {
+                        setup.push(Op::Draw("w".into()));
+                    }
+                    ex.state(w, 1, &setup, &mut cands.clone().into_iter());
+                }
+            }
+        }),
+        exh_sub("exh-width-changes", (7, 10), run, |i, _t, acc| {
+            // a stop set at one width, used at another (resize and DECCOLM in between)
+            let w = i as u32 + 2;
+            let mut ex = Explorer::new(cfg_for("C18"), acc);
+            for mask in 0..(1u32 << (w + 1)) {
+                for w2 in 1..=w + 2 {
+                    let mut setup = vec![Op::Tbc(Some(3))];
+                    for s in 0..=w {
+                        if mask >> s & 1 == 1 {
+                            setup.push(Op::Cha(Some(s.min(w - 1) + 1)));
+                            if s == w {
+                                setup.push(Op::Draw("w".into())); // stop at the pending-wrap column
+                            }
+                            setup.push(Op::Hts);
+                        }
+                    }
+                    setup.push(Op::Resize(None, Some(w2)));
+                    let mut cands: Vec<Vec<Op>> = Vec::new();
+                    for x in 0..w2 {
+                        cands.push(vec![Op::Cha(Some(x + 1)), Op::Tab, Op::Tab]);
+                    }
+                    cands.push(vec![Op::Cha(Some(w2)), Op::Draw("w".into()), Op::Tab]);
+                    ex.state(w, 1, &setup, &mut cands.into_iter());
+                }
+            }
+        }),
+    ]
+}
+
+// ------------------------------------------------------------------------------------------
+// C20
+
+pub fn c20_subs() -> Vec<Sub> {
+    let run = stepper_run(cfg_for("C20"));
+    let r = run.clone();
+    vec![exh_sub("exh-tables", (17, 17), run, move |i, _t, acc| {
+        let mut cases: Vec<Case> = Vec::new();
+        if i < 16 {
+            let tbl = ["B", "0", "U", "V"][i / 4];
+            let slot = ["(", ")"][(i / 2) % 2];
+            let shift_out = i % 2 == 1;
+            for cp in 0..=255u32 {
+                let ch = char::from_u32(cp).unwrap().to_string();
+                cases.push(Case {
+                    cols: 3,
+                    lines: 1,
+                    ops: vec![
+                        Op::DefCharset(tbl.into(), slot.into()),
+                        if shift_out { Op::So } else { Op::Si },
+                        Op::Draw(ch.clone()),
+                        Op::Draw(ch),
+                    ],
+                });
+                // through the byte parser in 8-bit mode
+                let mut bytes = vec![0x1b, slot.as_bytes()[0], tbl.as_bytes()[0], if shift_out { 0x0e } else { 0x0f }];
+                bytes.push(cp as u8);
+                bytes.push(b'q');
+                cases.push(Case { cols: 3, lines: 1, ops: vec![Op::SelCharset("@".into()), Op::FeedBytes(bytes.clone())] });
+                // ... and in UTF-8 mode, where shifts and designators are ignored
+                if cp < 0x80 {
+                    cases.push(Case { cols: 3, lines: 1, ops: vec![Op::FeedBytes(bytes)] });
+                }
+            }
+        } else {
+            for (code, mode) in [("A", "("), ("K", ")"), ("0", "*"), ("x", "("), ("", "("), ("B0", ")"), ("0", "")] {
+                for so in [false, true] {
+                    for t in ["q", "\u{2500}", "\u{4e2d}", "\u{ff}", "\u{100}", "a\u{301}"] {
+                        cases.push(Case {
+                            cols: 4,
+                            lines: 1,
+                            ops: vec![
+                                Op::DefCharset("U".into(), ")".into()),
+                                Op::DefCharset(code.into(), mode.into()),
+                                if so { Op::So } else { Op::Si },
+                                Op::Draw(t.into()),
+                            ],
+                        });
+                    }
+                }
+            }
+            // the char parser with the UTF-8 flag off / on
+            for utf8 in [false, true] {
+                for tbl in ["B", "0", "U", "V", "A"] {
+                    for slot in ["(", ")"] {
+                        cases.push(Case {
+                            cols: 4,
+                            lines: 1,
+                            ops: vec![Op::SetUtf8(utf8), Op::FeedStr(format!("\x1b{}{}\x0eq\x0fq\u{e9}", slot, tbl))],
+                        });
+                    }
+                }
+            }
+        }
+        for c in cases {
+            let res = r(&c);
+            if acc.absorb(&c, res).is_some() {
+                return;
+            }
+        }
+    })]
+}
+
+// ------------------------------------------------------------------------------------------
+// C04: small exhaustive product of texts x edge states
+
+pub fn c04_subs() -> Vec<Sub> {
+    let run = stepper_run(cfg_for("C04"));
+    vec![exh_sub("exh-edge-states", (12, 12), run, |i, _t, acc| {
+        let (cols, lines) = [(1u32, 1u32), (1, 2), (2, 1), (2, 2), (3, 2), (4, 3)][i / 2];
+        let sparse = i % 2 == 1;
+        let chars = ["a", "\u{4e2d}", "\u{301}", "\u{200b}", "\u{0}", "\u{e9}", "\u{7f}"];
+        let mut cands: Vec<Vec<Op>> = Vec::new();
+        for a in chars {
+            cands.push(vec![Op::Draw(a.into())]);
+            cands.push(vec![Op::FeedStr(a.into())]);
+            for b in chars {
+                cands.push(vec![Op::Draw(format!("{}{}", a, b))]);
+                for c in ["a", "\u{4e2d}", "\u{301}"] {
+                    cands.push(vec![Op::Draw(format!("{}{}{}", a, b, c))]);
+                }
+            }
+        }
+        let mut ex = Explorer::new(cfg_for("C04"), acc);
+        for modes in 0..16u32 {
+            for region in [false, true] {
+                if region && lines < 2 {
+                    continue;
+                }
+                for y in 0..lines {
+                    for x in 0..=cols {
+                        let mut setup = vec![Op::Fill { rows: if sparse { 0b101 } else { 0 }, sparse }];
+                        if region {
+                            setup.push(Op::Stbm(Some(1), Some(2)));
+                        }
+                        if modes & 1 != 0 {
+                            setup.push(Op::Rm(vec![7], true));
+                        }
+                        if modes & 2 != 0 {
+                            setup.push(Op::Sm(vec![4], false));
+                        }
+                        if modes & 4 != 0 {
+                            setup.push(Op::Sm(vec![20], false));
+                        }
+                        if modes & 8 != 0 {
+                            setup.push(Op::Sm(vec![5], true));
+                        }
+                        setup.push(Op::Sgr(vec![36, 4]));
+                        setup.push(Op::Cup(Some(y + 1), Some(x.min(cols - 1) + 1)));
+                        if x == cols {
+                            setup.push(Op::Sc);
+                            setup.push(Op::Rm(vec![4], false));
+                            setup.push(Op::Draw("w".into()));
+                            if modes & 2 != 0 {
+                                setup.push(Op::Sm(vec![4], false));
+                            }
+                        }
+                        ex.state(cols, lines, &setup, &mut cands.clone().into_iter());
+                    }
+                }
+            }
+        }
+    })]
+}
+
+// ------------------------------------------------------------------------------------------
+// C19: small payload grammar x introducers x codes x terminators x every 2-way split
+
+pub fn c19_subs() -> Vec<Sub> {
+    let run = stepper_run(cfg_for("C19"));
+    let r = run.clone();
+    let codes = ["0", "1", "2", "3", "a", "10", "21", "104"];
+    let n = 2 * codes.len() * 3;
+    vec![exh_sub("exh-osc-grammar", (n, n), run, move |i, tier, acc| {
+        let intro = ["\x1b]", "\u{9d}"][i % 2];
+        let code = codes[(i / 2) % codes.len()];
+        let term = ["\x07", "\u{9c}", "\x1b\\"][i / (2 * codes.len())];
+        let atoms = ["a", ";", "\\", "]", "\u{e9}", "\x1bx", "\x08", " ", "\u{4e2d}", "\x1b["];
+        let depth = if tier == Tier::Thorough { 3 } else { 2 };
+        let mut payloads: Vec<String> = vec![String::new()];
+        let mut layer: Vec<String> = vec![String::new()];
+        for _ in 0..depth {
+            let mut next = Vec::new();
+            for p in &layer {
+                for a in atoms {
+                    next.push(format!("{}{}", p, a));
+                }
+            }
+            payloads.extend(next.clone());
+            layer = next;
+        }
+        for p in payloads {
+            let whole = format!("p{}{};{}{}s", intro, code, p, term);
+            let chars: Vec<char> = whole.chars().collect();
+            // chars, whole and every 2-way split
+            for cut in 0..=chars.len() {
+                let a: String = chars[..cut].iter().collect();
+                let b: String = chars[cut..].iter().collect();
+                let ops = if cut == 0 { vec![Op::FeedStr(whole.clone())] } else { vec![Op::FeedStr(a), Op::FeedStr(b)] };
+                let c = Case { cols: 6, lines: 2, ops };
+                let res = r(&c);
+                if acc.absorb(&c, res).is_some() {
+                    return;
+                }
+            }
+            // bytes (UTF-8), whole and every 2-way split
+            let bytes = whole.as_bytes();
+            for cut in (0..=bytes.len()).step_by(1) {
+                let ops = if cut == 0 {
+                    vec![Op::FeedBytes(bytes.to_vec())]
+                } else {
+                    vec![Op::FeedBytes(bytes[..cut].to_vec()), Op::FeedBytes(bytes[cut..].to_vec())]
+                };
+                let c = Case { cols: 6, lines: 2, ops };
+                let res = r(&c);
+                if acc.absorb(&c, res).is_some() {
+                    return;
+                }
+            }
+        }
+    })]
+}
+
+// ------------------------------------------------------------------------------------------
+// C11: every 2-way split and byte-at-a-time of all short fragment sequences
+
+const FRAGS: &[&[u8]] = &[
+    b"a", b"\xc3\xa9", b"\xe4\xb8\xad", b"\xf0\x9f\x98\x80", b"\xef\xbb\xbf", b"\xc0", b"\x80", b"\xed\xa0\x80",
+    b"\xf4\x90", b"\xff", b"\xe4\xb8", b"\xf0\x9f", b"\xf0\x9f\x98", b"\xc3", b"\xe0\x80", b"\xf4\x8f\xbf\xbf",
+    b"\xed\x9f\xbf", b"\xee\x80\x80", b"\x1b[", b"1m", b"\xc2\x9b", b"\xe2\x82", b"\xf0\x90\x80\x80", b"\xf1",
+];
+
+pub fn c11_subs(run: RunFn) -> Vec<Sub> {
+    let r = run.clone();
+    let n = FRAGS.len();
+    vec![exh_sub("exh-2way-splits", (n, n), run, move |i, tier, acc| {
+        let depth3 = tier == Tier::Thorough;
+        let mut strings: Vec<Vec<u8>> = Vec::new();
+        for b in 0..FRAGS.len() {
+            let mut s = FRAGS[i].to_vec();
+            s.extend_from_slice(FRAGS[b]);
+            strings.push(s.clone());
+            for c in 0..FRAGS.len() {
+                if !depth3 && (b + c) % 4 != 0 {
+                    continue;
+                }
+                let mut t = s.clone();
+                t.extend_from_slice(FRAGS[c]);
+                strings.push(t);
+            }
+        }
+        strings.push(FRAGS[i].to_vec());
+        for s in strings {
+            for mode8 in [false, true] {
+                let mut variants: Vec<Vec<Op>> = Vec::new();
+                for cut in 0..=s.len() {
+                    variants.push(vec![Op::FeedBytes(s[..cut].to_vec()), Op::FeedBytes(s[cut..].to_vec())]);
+                }
+                variants.push(s.iter().map(|b| Op::FeedBytes(vec![*b])).collect());
+                for mut v in variants {
+                    if mode8 {
+                        v.insert(0, Op::SelCharset("@".into()));
+                        // switch back in the middle: the held tail must be dropped by `@` only
+                        v.insert(2, Op::SelCharset("G".into()));
+                    }
+                    v.push(Op::FeedBytes(b"x".to_vec()));
+                    let c = Case { cols: 1, lines: 1, ops: v };
+                    let res = r(&c);
+                    if acc.absorb(&c, res).is_some() {
+                        return;
+                    }
+                }
+            }
+        }
+    })]
+}
+
+// ------------------------------------------------------------------------------------------
+// C02: every 2-way split and unit-at-a-time feeding of fixed streams and captured sessions
+
+fn fixed_streams() -> Vec<String> {
+    // deterministic streams decoded from counter-based byte strings (not random)
+    let mut v = Vec::new();
+    for k in 0..240u32 {
+        let bytes: Vec<u8> = (0..96u32).map(|j| ((k * 131 + j * 29 + (j * j * 7 + k * k)) % 256) as u8).collect();
+        let mut src = crate::src::Src::new(&bytes);
+        v.push(crate::gen::stream(&mut src, 5, false));
+    }
+    v
+}
+
+pub fn c02_subs(run: RunFn) -> Vec<Sub> {
+    let r = run.clone();
+    let r2 = run.clone();
+    vec![
+        exh_sub("exh-2way-splits", (24, 24), run.clone(), move |i, _t, acc| {
+            let streams = fixed_streams();
+            for (k, s) in streams.iter().enumerate() {
+                if k % 24 != i {
+                    continue;
+                }
+                let chars: Vec<char> = s.chars().collect();
+                // Parser: every character boundary, and char-at-a-time
+                let mut variants: Vec<Vec<Op>> = Vec::new();
+                for cut in 1..chars.len() {
+                    variants.push(vec![Op::FeedStr(chars[..cut].iter().collect()), Op::FeedStr(chars[cut..].iter().collect())]);
+                }
+                variants.push(chars.iter().map(|c| Op::FeedStr(c.to_string())).collect());
+                // ByteParser UTF-8 and 8-bit: every byte offset, and byte-at-a-time
+                for eight in [false, true] {
+                    let b = crate::gen::encode(s, eight);
+                    for cut in 1..b.len() {
+                        let mut v = vec![Op::FeedBytes(b[..cut].to_vec()), Op::FeedBytes(b[cut..].to_vec())];
+                        if eight {
+                            v.insert(0, Op::SelCharset("@".into()));
+                        }
+                        variants.push(v);
+                    }
+                    let mut v: Vec<Op> = b.iter().map(|x| Op::FeedBytes(vec![*x])).collect();
+                    if eight {
+                        v.insert(0, Op::SelCharset("@".into()));
+                    }
+                    variants.push(v);
+                }
+                for v in variants {
+                    let c = Case { cols: 7, lines: 3, ops: v };
+                    let res = r(&c);
+                    if acc.absorb(&c, res).is_some() {
+                        return;
+                    }
+                }
+            }
+        }),
+        exh_sub("captured-sessions", (28, 56), run, move |i, tier, acc| {
+            // the repository's captured sessions: every 2-way split of a window, random-free
+            let names = ["cat-gpl3", "find-etc", "htop", "ls", "mc", "top", "vi"];
+            let name = names[i % 7];
+            let part = i / 7;
+            let path = format!("/repo/assets/captured/{}.input", name);
+            let data = match std::fs::read(&path) {
+                Ok(d) => d,
+                Err(_) => {
+                    acc.stats.exclude("captured-session-missing");
+                    return;
+                }
+            };
+            let win = if tier == Tier::Thorough { 1500 } else { 700 };
+            // windows at different offsets into the session (a prefix keeps the state meaningful)
+            let start = (part * data.len() / 9).min(data.len().saturating_sub(win));
+            let window = &data[start..(start + win).min(data.len())];
+            let step = if tier == Tier::Thorough { 1 } else { 3 };
+            for cut in (1..window.len()).step_by(step) {
+                let c = Case {
+                    cols: 80,
+                    lines: 24,
+                    ops: vec![Op::FeedBytes(window[..cut].to_vec()), Op::FeedBytes(window[cut..].to_vec())],
+                };
+                let res = r2(&c);
+                if acc.absorb(&c, res).is_some() {
+                    return;
+                }
+            }
+            // k-way: fixed chunk sizes
+            for size in [1usize, 2, 3, 5, 7, 16, 61] {
+                let c = Case { cols: 80, lines: 24, ops: window.chunks(size).map(|ch| Op::FeedBytes(ch.to_vec())).collect() };
+                let res = r2(&c);
+                if acc.absorb(&c, res).is_some() {
+                    return;
+                }
+            }
+        }),
+    ]
+}
+
+// ------------------------------------------------------------------------------------------
+// C03: bounded exhaustive enumeration with ground-state pruning
+
+fn successors(st: &St) -> Vec<char> {
+    const C0X: [char; 7] = ['\x07', '\x08', '\x09', '\x0a', '\x0b', '\x0c', '\x0d'];
+    match st {
+        St::Ground => {
+            let mut v = vec!['\x1b', '\u{9b}', '\u{9d}', '\u{9c}', 'a', '\u{e9}', '\u{4e2d}', '\x7f', '\x00', '\x18', '\x0e', '\x0f', '['];
+            v.extend(C0X);
+            v
+        }
+        St::Esc => vec![
+            '[', ']', '#', '%', '(', ')', 'c', 'D', 'E', 'M', 'H', '7', '8', '=', 'Z', '\\', '\x1b', '\x07', 'a', '\x18', '\u{9b}', '\x0a',
+        ],
+        St::EscHash => vec!['8', '3', '\x1b', 'a'],
+        St::EscPercent => vec!['@', 'G', 'a', '\x1b'],
+        St::EscCharset(_) => vec!['B', '0', 'U', 'V', 'A', '\x1b', '\x07'],
+        St::Csi { .. } => {
+            let mut v = vec!['0', '1', '9', ';', '?', '$', ' ', '>', '\x18', '\x1a', '\x1b', '\u{e9}', '\u{9b}', '\x0e', ':', '<'];
+            v.extend(C0X);
+            v.extend(['@', 'A', 'B', 'C', 'D', 'E', 'F', 'G', 'H', 'J', 'K', 'L', 'M', 'P', 'X', 'a', 'c', 'd', 'e', 'f', 'g', 'h', 'l', 'm', 'r']);
+            v.extend(['S', 'n', '~']);
+            v
+        }
+        St::CsiDollar => vec!['p', '\x1b', 'a', '\x07'],
+        // R, P, p, terminators and ESC directly after the introducer are outside the domain
+        St::OscStart => vec!['0', '1', '2', '3', 'a', ';'],
+        St::Osc { .. } => vec![';', '\x1b', '\\', '\x07', '\u{9c}', 'a', '0', '\x18', '\u{e9}'],
+        St::OscEsc { .. } => vec!['\\', 'x', '\x1b', '['],
+    }
+}
+
+/// does the symbol keep the recogniser inside a CSI (used for the depth budget)?
+fn c03_eval(s: &str, run: &RunFn, acc: &mut Acc) -> bool {
+    let text = format!("{}X", s);
+    let variants = [
+        vec![Op::FeedStr(text.clone())],
+        vec![Op::SetUtf8(false), Op::FeedStr(text.clone())],
+        vec![Op::FeedBytes(text.as_bytes().to_vec())],
+        vec![Op::SelCharset("@".into()), Op::FeedBytes(crate::gen::encode(&text, true))],
+    ];
+    for (k, v) in variants.into_iter().enumerate() {
+        // the 8-bit byte variant only makes sense for code points <= 0xff
+        if k == 3 && text.chars().any(|c| c as u32 > 0xff) {
+            continue;
+        }
+        let c = Case { cols: 1, lines: 1, ops: v };
+        let res = run(&c);
+        if acc.absorb(&c, res).is_some() {
+            return false;
+        }
+    }
+    true
+}
+
+fn c03_dfs(prefix: &mut String, rec: &Recog, depth_left: usize, run: &RunFn, acc: &mut Acc) -> bool {
+    for sym in successors(&rec.st) {
+        let mut r = rec.clone();
+        let mut sink = Vec::new();
+        r.feed(sym, &mut sink);
+        prefix.push(sym);
+        if !c03_eval(prefix, run, acc) {
+            prefix.pop();
+            return false;
+        }
+        // ground-state pruning: in ground the machine has no memory
+        if !r.in_ground() && depth_left > 1 {
+            if !c03_dfs(prefix, &r, depth_left - 1, run, acc) {
+                prefix.pop();
+                return false;
+            }
+        }
+        prefix.pop();
+    }
+    true
+}
+
+fn c03_roots() -> Vec<String> {
+    // all non-ground prefixes of length 2 (plus the length-1 strings, which shard 0 evaluates)
+    let mut roots = Vec::new();
+    let g = Recog::new(true);
+    for a in successors(&St::Ground) {
+        let mut r = g.clone();
+        let mut sink = Vec::new();
+        r.feed(a, &mut sink);
+        if r.in_ground() {
+            continue;
+        }
+        for b in successors(&r.st) {
+            let mut r2 = r.clone();
+            r2.feed(b, &mut sink);
+            if !r2.in_ground() {
+                roots.push(format!("{}{}", a, b));
+            }
+        }
+    }
+    roots
+}
+
+pub fn c03_subs(run: RunFn) -> Vec<Sub> {
+    let n = c03_roots().len() + 1;
+    let r = run.clone();
+    vec![exh_sub("exh-bounded-strings", (n, n), run, move |i, tier, acc| {
+        let max_len = if tier == Tier::Thorough { 6 } else { 5 };
+        if i == 0 {
+            // strings of length 1 and 2
+            let g = Recog::new(true);
+            let mut p = String::new();
+            c03_dfs(&mut p, &g, 2, &r, acc);
+            return;
+        }
+        let root = c03_roots()[i - 1].clone();
+        let mut rec = Recog::new(true);
+        let mut sink = Vec::new();
+        rec.feed_str(&root, &mut sink);
+        let mut p = root.clone();
+        c03_dfs(&mut p, &rec, max_len - 2, &r, acc);
+    })]
+}
+
+#[allow(dead_code)]
+fn unused(_: &Cfg, _: fn(&Case, &Cfg) -> crate::engine::CaseResult) {
+    let _ = run_stepper;
+}
